@@ -41,6 +41,8 @@ type Scenario struct {
 	// delegation sub to the same validator in the same period", which drives the validator-total
 	// pending record negative (a known way to wreck the block; most chains avoid it to get further).
 	NegRecord bool
+	// RecklessEvidence lets double-sign evidence hit validators without self stake.
+	RecklessEvidence bool
 }
 
 func dust(r *rand.Rand) *big.Int {
@@ -121,6 +123,7 @@ func PickScenario(r *rand.Rand, blocks int) *Scenario {
 	}
 	sc.Evidence = r.Intn(2) == 0
 	sc.NegRecord = r.Intn(5) == 0
+	sc.RecklessEvidence = r.Intn(4) == 0
 	if r.Intn(5) == 0 {
 		sc.Busy = 30
 	}
